@@ -365,3 +365,141 @@ Section FromDecls.
     now apply rerun_same_line.
   Qed.
 End FromDecls.
+
+(** * The pass with failures ([Cmd.fill_partial], in the order of the names) refines the model's pass when it succeeds *)
+From Coq Require Import Sorting.Permutation.
+From MowCli Require Import OrderProofs.
+
+Section Partial.
+  Variable parse_float : str -> option str.
+
+  Lemma set_all_partial_ok vs : forall v v', set_all_partial parse_float v vs = (v', true) -> set_all parse_float v vs = Some v'.
+  Proof.
+    induction vs as [|s vs IH]; intros v v'; cbn [set_all_partial set_all]; [now intros [= <-]|].
+    destruct (vset_log parse_float v s) as [v1 ok]. destruct ok; [apply IH | discriminate].
+  Qed.
+
+  Lemma fill_one_partial_ok c vs c' : vs <> [] ->
+    fill_one_partial parse_float c vs = (c', true) -> fill_one parse_float c vs = Some c'.
+  Proof.
+    intros Hne. unfold fill_one_partial, fill_one. destruct vs as [|s vs]; [congruence|].
+    set (v0 := if is_multi _ then _ else _).
+    destruct (set_all_partial parse_float v0 (s :: vs)) as [v ok] eqn:E. destruct ok; [|discriminate].
+    intros [= <-]. now rewrite (set_all_partial_ok _ _ _ E).
+  Qed.
+
+  Lemma fill_partial_visit mk bs order : forall cs cs',
+    (forall k, In k order -> values_for (mk k) bs <> []) ->
+    fill_partial parse_float cs order mk bs = (cs', true) ->
+    visit container (fill_at parse_float mk bs) cs order = Some cs'.
+  Proof.
+    induction order as [|k rest IH]; intros cs cs' Hne; cbn [fill_partial visit]; [now intros [= <-]|].
+    destruct (nth_error cs k) as [c|]; [|apply IH; intros j Hj; apply Hne; now right].
+    destruct (fill_one_partial parse_float c (values_for (mk k) bs)) as [c1 ok] eqn:E. destruct ok; [|discriminate].
+    unfold fill_at. rewrite (fill_one_partial_ok c _ c1 (Hne k (or_introl eq_refl)) E).
+    apply IH. intros j Hj. apply Hne. now right.
+  Qed.
+
+  Lemma insert_by_name_perm cs k l : Permutation (insert_by_name cs k l) (k :: l).
+  Proof.
+    induction l as [|j l IH]; cbn [insert_by_name]; [reflexivity|].
+    destruct (str_ltb _ _); [|reflexivity]. rewrite IH. apply perm_swap.
+  Qed.
+
+  Lemma fill_order_perm cs mk bs :
+    Permutation (fill_order cs mk bs)
+                (filter (fun k => match values_for (mk k) bs with [] => false | _ => true end) (List.seq 0 (length cs))).
+  Proof.
+    unfold fill_order. induction (filter _ _) as [|k l IH]; cbn [fold_right]; [reflexivity|].
+    rewrite insert_by_name_perm. now constructor.
+  Qed.
+
+  Lemma fill_order_spec cs mk bs :
+    NoDup (fill_order cs mk bs) /\
+    (forall k, In k (fill_order cs mk bs) <-> k < length cs /\ values_for (mk k) bs <> []).
+  Proof.
+    pose proof (fill_order_perm cs mk bs) as P. split.
+    - eapply Permutation_NoDup; [apply Permutation_sym; exact P|]. apply NoDup_filter, seq_NoDup.
+    - intros k. split.
+      + intros H. apply (Permutation_in _ P) in H. apply filter_In in H as [H1 H2]. apply in_seq in H1. split; [lia|].
+        destruct (values_for (mk k) bs); [discriminate | discriminate].
+      + intros [H1 H2]. apply (Permutation_in _ (Permutation_sym P)). apply filter_In. split; [apply in_seq; lia|].
+        destruct (values_for (mk k) bs); [congruence | reflexivity].
+  Qed.
+
+  (** when the pass in the order of the names goes through, it leaves what the model's pass in declaration order leaves *)
+  Theorem fill_partial_refines_fill cs mk bs cs' :
+    fill_partial parse_float cs (fill_order cs mk bs) mk bs = (cs', true) -> fill parse_float cs 0 mk bs = Some cs'.
+  Proof.
+    intros H. destruct (fill_order_spec cs mk bs) as [Hnd Hin].
+    rewrite <- (fill_any_order parse_float cs (fill_order cs mk bs) mk bs Hnd).
+    - unfold fill_visit. apply fill_partial_visit; [|exact H]. intros k Hk. now apply Hin.
+    - intros k Hk Hv. now apply Hin.
+  Qed.
+End Partial.
+
+Section PartialComplete.
+  Variable parse_float : str -> option str.
+
+  Lemma set_all_partial_fail vs : forall v v', set_all_partial parse_float v vs = (v', false) -> set_all parse_float v vs = None.
+  Proof.
+    induction vs as [|s vs IH]; intros v v'; cbn [set_all_partial set_all]; [discriminate|].
+    destruct (vset_log parse_float v s) as [v1 ok]. destruct ok; [apply IH | reflexivity].
+  Qed.
+
+  Lemma fill_one_partial_fail c vs c' : vs <> [] ->
+    fill_one_partial parse_float c vs = (c', false) -> fill_one parse_float c vs = None.
+  Proof.
+    intros Hne. unfold fill_one_partial, fill_one. destruct vs as [|s vs]; [congruence|].
+    set (v0 := if is_multi _ then _ else _).
+    destruct (set_all_partial parse_float v0 (s :: vs)) as [v ok] eqn:E. destruct ok; [discriminate|].
+    intros _. now rewrite (set_all_partial_fail _ _ _ E).
+  Qed.
+
+  (** a failing pass fails on a container of the original list (no container is visited twice) *)
+  Lemma fill_partial_fail mk bs order : forall cs cs', NoDup order ->
+    (forall k, In k order -> values_for (mk k) bs <> []) ->
+    fill_partial parse_float cs order mk bs = (cs', false) ->
+    exists k c, In k order /\ nth_error cs k = Some c /\ fill_one parse_float c (values_for (mk k) bs) = None.
+  Proof.
+    induction order as [|k rest IH]; intros cs cs' Hnd Hne; cbn [fill_partial]; [discriminate|].
+    inversion Hnd as [|k0 r0 Hnot Hnd']; subst.
+    destruct (nth_error cs k) as [c|] eqn:Hk.
+    - destruct (fill_one_partial parse_float c (values_for (mk k) bs)) as [c1 ok] eqn:E. destruct ok.
+      + intros H. destruct (IH _ _ Hnd' (fun j Hj => Hne j (or_intror Hj)) H) as (j & cj & Hj & Hn & Hf).
+        exists j, cj. split; [now right|]. split; [|exact Hf].
+        assert (k <> j) by (intros ->; contradiction).
+        now rewrite (nth_error_set_nth_neq container cs k j c1) in Hn.
+      + intros _. exists k, c. split; [now left|]. split; [exact Hk|].
+        exact (fill_one_partial_fail c _ c1 (Hne k (or_introl eq_refl)) E).
+    - intros H. destruct (IH _ _ Hnd' (fun j Hj => Hne j (or_intror Hj)) H) as (j & cj & Hj & Hn & Hf).
+      exists j, cj. split; [now right | auto].
+  Qed.
+
+  (** the two passes agree on success: the pass of the library (names order, failures kept) succeeds exactly when the
+      model's pass does, with the same containers *)
+  Theorem fill_partial_iff_fill cs mk bs cs' :
+    fill parse_float cs 0 mk bs = Some cs' <-> fill_partial parse_float cs (fill_order cs mk bs) mk bs = (cs', true).
+  Proof.
+    split; [|apply fill_partial_refines_fill].
+    intros H. destruct (fill_order_spec cs mk bs) as [Hnd Hin].
+    destruct (fill_partial parse_float cs (fill_order cs mk bs) mk bs) as [cs2 ok] eqn:E. destruct ok.
+    - rewrite (fill_partial_refines_fill parse_float cs mk bs cs2 E) in H. now injection H as ->.
+    - exfalso. destruct (fill_partial_fail mk bs _ cs cs2 Hnd (fun k Hk => proj2 (proj1 (Hin k) Hk)) E) as (k & c & _ & Hk & Hf).
+      pose proof (ValueProofs.fill_spec parse_float cs 0 mk bs) as S. rewrite H in S.
+      destruct (S k c Hk) as (c' & _ & Hc). cbn in Hc. congruence.
+  Qed.
+
+  (** what an accepting parse leaves, computed by the pass of the library, is what the model's [fsm_parse] returns *)
+  Theorem fsm_parse_state_accept i argv opts' args' :
+    fsm_parse parse_float i argv = PAccept opts' args' ->
+    fsm_parse_state parse_float i argv = after_run i opts' args'.
+  Proof.
+    unfold fsm_parse, fsm_parse_state.
+    destruct (fsm_apply (optinfo_of (i_opts i)) (i_graph i) (i_start i) argv) as [bs| |]; try discriminate.
+    destruct (fill parse_float (i_opts i) 0 KO bs) as [o1|] eqn:Fo; [|discriminate].
+    destruct (fill parse_float (i_args i) 0 KA bs) as [a1|] eqn:Fa; [|discriminate].
+    intros [= <- <-].
+    rewrite (proj1 (fill_partial_iff_fill _ _ _ _) Fo), (proj1 (fill_partial_iff_fill _ _ _ _) Fa). reflexivity.
+  Qed.
+End PartialComplete.
